@@ -114,11 +114,11 @@ func c20Single(c *C20Case) Verdict {
 			return ok(false, "single", "deadline-outside-wait")
 		case j+1 < len(execs):
 			return bad("C20:attempt-after-cancel", "deadline at %v fell into the wait after attempt %d (ended %v), yet attempt %d was started at %v", deadline, j, execs[j].T1, j+1, execs[j+1].T0)
-		case finished <= deadline:
+		case finished < deadline || execs[j].T1 == deadline:
 			return ok(false, "single", "deadline-outside-wait") // the run was over before the deadline
 		}
-		// every attempt made ended before the deadline and the run was still going on at the
-		// deadline: it was waiting (fallback and post take no virtual time here)
+		// the last attempt ended strictly before the deadline and the run went on until the deadline
+		// or beyond without another attempt: it was waiting (fallback and post take no virtual time)
 		if rr.Err == nil || !errors.Is(rr.Err, context.DeadlineExceeded) {
 			return bad("C20:cancel-error", "cancelled during the wait after attempt %d but run returned %v", j, rr.Err)
 		}
